@@ -323,6 +323,10 @@ func (s *SFlowDatagram) DecodeFromBytes(data []byte, df gopacket.DecodeFeedback)
 		return fmt.Errorf("SFlow Datagram has invalid sample length: %d", s.SampleCount)
 	}
 	for i := uint32(0); i < s.SampleCount; i++ {
+		if len(data) < 4 {
+			df.SetTruncated()
+			return errors.New("SFlow datagram too short for sample header")
+		}
 		sdf := SFlowDataFormat(binary.BigEndian.Uint32(data[:4]))
 		_, sampleType := sdf.decode()
 		switch sampleType {
@@ -467,6 +471,9 @@ func skipRecord(data *[]byte) {
 func decodeFlowSample(data *[]byte, expanded bool) (SFlowFlowSample, error) {
 	s := SFlowFlowSample{}
 	var sdf SFlowDataFormat
+	if len(*data) < 4 {
+		return SFlowFlowSample{}, errors.New("flow sample too small")
+	}
 	*data, sdf = (*data)[4:], SFlowDataFormat(binary.BigEndian.Uint32((*data)[:4]))
 	var sdc SFlowDataSource
 
@@ -541,6 +548,9 @@ func decodeFlowSample(data *[]byte, expanded bool) (SFlowFlowSample, error) {
 	*data, s.RecordCount = (*data)[4:], binary.BigEndian.Uint32((*data)[:4])
 
 	for i := uint32(0); i < s.RecordCount; i++ {
+		if len(*data) < 8 {
+			return s, errors.New("flow record header too small")
+		}
 		rdf := SFlowFlowDataFormat(binary.BigEndian.Uint32((*data)[:4]))
 		enterpriseID, flowRecordType := rdf.decode()
 
@@ -795,6 +805,14 @@ func decodeCounterSample(data *[]byte, expanded bool) (SFlowCounterSample, error
 	var sdce SFlowDataSourceExpanded
 	var sdf SFlowDataFormat
 
+	// format, length, sequence number, source id (8 bytes if expanded) and record count
+	headerLen := 20
+	if expanded {
+		headerLen = 24
+	}
+	if len(*data) < headerLen {
+		return SFlowCounterSample{}, errors.New("counter sample too small")
+	}
 	*data, sdf = (*data)[4:], SFlowDataFormat(binary.BigEndian.Uint32((*data)[:4]))
 	s.EnterpriseID, s.Format = sdf.decode()
 	*data, s.SampleLength = (*data)[4:], binary.BigEndian.Uint32((*data)[:4])
@@ -809,6 +827,9 @@ func decodeCounterSample(data *[]byte, expanded bool) (SFlowCounterSample, error
 	*data, s.RecordCount = (*data)[4:], binary.BigEndian.Uint32((*data)[:4])
 
 	for i := uint32(0); i < s.RecordCount; i++ {
+		if len(*data) < 8 {
+			return s, errors.New("counter record header too small")
+		}
 		cdf := SFlowCounterDataFormat(binary.BigEndian.Uint32((*data)[:4]))
 		_, counterRecordType := cdf.decode()
 		switch counterRecordType {
